@@ -5,6 +5,7 @@ KEYS['auth_c19'] = {'pkg': 'sdk/go/auth'}
 # the overlay presents a PAM-free stand-in (PAM login is unrelated to C19). /repo is untouched.
 C19_PAM_HOOKS = {'lib/controller/localdb/login_pam.go': 'harness/federation_c19/hooks/login_pam_nocgo.go'}
 KEYS['federation_c19'] = {'pkg': 'lib/controller/federation', 'hooks': C19_PAM_HOOKS}
+KEYS['controller_c19'] = {'pkg': 'lib/controller', 'hooks': {'lib/controller/localdb/login_pam.go': 'harness/controller_c19/hooks/login_pam_nocgo.go'}}
 
 CHECKS['C19'] = {
     'ready': False,
@@ -15,5 +16,6 @@ CHECKS['C19'] = {
         unit('salt', 'auth_c19', '^TestVerifC19SaltToken$', {'shards': 4, 'checks': 4000}, {'shards': 8, 'checks': 100000, 'timeout': 900}),
         unit('provider', 'federation_c19', '^TestVerifC19Provider$', {'shards': 4, 'checks': 3000}, {'shards': 8, 'checks': 60000, 'timeout': 900}),
         unit('conn', 'federation_c19', '^TestVerifC19Conn$', {'shards': 4, 'checks': 1500}, {'shards': 8, 'checks': 30000, 'timeout': 900}),
+        unit('legacy', 'controller_c19', '^TestVerifC19LegacyHandler$', {'shards': 4, 'checks': 1500}, {'shards': 8, 'checks': 30000, 'timeout': 900}),
     ],
 }
